@@ -15,7 +15,7 @@ namespace rlbox::detail {
 
 template<typename T_To, typename T_From>
 inline constexpr void convert_type_fundamental(T_To& to,
-                                               const volatile T_From& from)
+                                               const volatile T_From& from_ref)
 {
   using namespace std;
 
@@ -33,18 +33,22 @@ inline constexpr void convert_type_fundamental(T_To& to,
   {
     static_assert(std::is_same_v<detail::remove_cv_ref_t<T_To>,
                                  detail::remove_cv_ref_t<T_From>>);
-    to = from;
+    to = from_ref;
   }
   else if_constexpr_named(
     cond4, is_floating_point_v<T_To> || is_floating_point_v<T_From>)
   {
     static_assert(is_floating_point_v<T_To> && is_floating_point_v<T_From>);
     // language coerces different float types
-    to = from;
+    to = from_ref;
   }
   else if_constexpr_named(cond5, is_integral_v<T_To> || is_integral_v<T_From>)
   {
     static_assert(is_integral_v<T_To> && is_integral_v<T_From>);
+
+    // The source may be in sandbox memory, which the sandbox can change at any
+    // time. Read it once, so that the value checked is the value converted
+    const T_From from = from_ref;
 
     const char* err_msg =
       "Over/Underflow when converting between integer types";
